@@ -3260,6 +3260,42 @@ func c15r16(c *Ctx, r *Report) {
 	r.floor("stores into Terminal.xoffset in updatePromptOffset", n, 1)
 }
 
+// c15r17: printList redraws a row only if it differs from what Terminal.prevLines says is on it. In the
+// reverse-list layout the header lines share the list window, and the physical row of list line i depends on how
+// many of them are shown — so whoever shows or hides the header has to invalidate that memo, as toggle-input does
+// (D71: toggle-header / show-header / hide-header did not: `item5one`, `item6two` — header text left inside item rows).
+func c15r17(c *Ctx, r *Report) {
+	l := c.L
+	r.rule("C15-R17", "A (a change of header visibility invalidates the row memo)", "P1",
+		"in Terminal.Loop and its closures, every path from a store into Terminal.headerVisible to a return passes a call of Terminal.forceRerenderList",
+		"with --layout reverse-list the rows keep fragments of the header that was there before: a list row does not show the corresponding result line")
+	loop := l.Fn("fzf", "(*Terminal).Loop")
+	force := l.Fn("fzf", "(*Terminal).forceRerenderList")
+	fHV := l.Field("fzf", "Terminal", "headerVisible")
+	if loop == nil || force == nil || fHV == nil {
+		r.unest("anchors", token.NoPos, nil, "anchors Terminal.Loop / forceRerenderList / headerVisible", "cannot resolve")
+		return
+	}
+	isForce := func(in ssa.Instruction) bool { return staticCallee(in) == force }
+	n := 0
+	for _, fn := range withClosures(loop) {
+		eachInstr(fn, func(in ssa.Instruction) {
+			st, ok := in.(*ssa.Store)
+			if !ok {
+				return
+			}
+			if fld, _ := fieldOf(st.Addr); fld != fHV {
+				return
+			}
+			n++
+			hit := pathAvoiding(st, isReturn, isForce, nil)
+			r.check(hit == nil, fmt.Sprintf("%s:change #%d of the header's visibility invalidates the row memo", relName(rootFn(fn)), n), st.Pos(), fn,
+				"forceRerenderList follows", "the header is shown or hidden and the handler returns without invalidating prevLines")
+		})
+	}
+	r.floor("stores into Terminal.headerVisible in Terminal.Loop", n, 3)
+}
+
 // round8 runs the round-8 rules of a property (own and shared) after the property's older rules.
 func round8(c *Ctx, r *Report, prop string) {
 	switch prop {
@@ -3309,6 +3345,7 @@ func round8(c *Ctx, r *Report, prop string) {
 		c06r11(c, r)
 		c06r12(c, r)
 	case "C15":
+		c15r17(c, r)
 		c15r16(c, r)
 		c15r13(c, r)
 		c15r14(c, r)
